@@ -967,20 +967,6 @@ func errMayBeNil(e ssa.Value, at *ssa.Return, d int) bool {
 	if definitelyNonNil(e) || d > 3 {
 		return d > 3
 	}
-	if call, ok := e.(*ssa.Call); ok {
-		if g := call.Call.StaticCallee(); g != nil && len(g.Blocks) > 0 && inModule(g) {
-			for _, b := range g.Blocks {
-				r2, isRet := b.Instrs[len(b.Instrs)-1].(*ssa.Return)
-				if !isRet || len(r2.Results) == 0 || b == g.Recover {
-					continue
-				}
-				if errMayBeNil(unspill(r2.Results[len(r2.Results)-1]), r2, d+1) {
-					return true
-				}
-			}
-			return false
-		}
-	}
 	// a value tested against nil on the way to this return
 	if refs := e.Referrers(); refs != nil {
 		for _, ref := range *refs {
@@ -1004,6 +990,20 @@ func errMayBeNil(e ssa.Value, at *ssa.Return, d int) bool {
 					return false
 				}
 			}
+		}
+	}
+	if call, ok := e.(*ssa.Call); ok {
+		if g := call.Call.StaticCallee(); g != nil && len(g.Blocks) > 0 && inModule(g) {
+			for _, b := range g.Blocks {
+				r2, isRet := b.Instrs[len(b.Instrs)-1].(*ssa.Return)
+				if !isRet || len(r2.Results) == 0 || b == g.Recover {
+					continue
+				}
+				if errMayBeNil(unspill(r2.Results[len(r2.Results)-1]), r2, d+1) {
+					return true
+				}
+			}
+			return false
 		}
 	}
 	return true
